@@ -125,6 +125,22 @@ class Folder:
                 if isinstance(v, int) and not isinstance(v, bool) and 0 <= v <= 70000:
                     return bytes(v)
                 return UNKNOWN
+            if isinstance(fn, ast.Attribute) and fn.attr == 'join' and len(e.args) == 1 and not e.keywords:
+                sep = self._fold(fn.value, mod, cls, env)
+                items = self._fold(e.args[0], mod, cls, env)
+                if isinstance(sep, str) and isinstance(items, (list, tuple)) and all(isinstance(i, str) for i in items):
+                    return sep.join(items)
+                if isinstance(sep, bytes) and isinstance(items, (list, tuple)) and all(isinstance(i, bytes) for i in items):
+                    return sep.join(items)
+                return UNKNOWN
+            if isinstance(fn, ast.Name) and fn.id in ('any', 'all') and len(e.args) == 1 and not e.keywords:
+                items = self._fold(e.args[0], mod, cls, env)
+                if isinstance(items, (list, tuple)) and not any(isinstance(i, ClassRef) for i in items):
+                    return any(items) if fn.id == 'any' else all(items)
+                return UNKNOWN
+            if isinstance(fn, ast.Name) and fn.id == 'str' and len(e.args) == 1 and not e.keywords:
+                v = self._fold(e.args[0], mod, cls, env)
+                return str(v) if isinstance(v, (str, int)) and not isinstance(v, bool) else UNKNOWN
             if isinstance(fn, ast.Name) and fn.id == 'range' and 1 <= len(e.args) <= 3 and not e.keywords:
                 vs = [self._fold(a, mod, cls, env) for a in e.args]
                 if all(isinstance(v, int) and not isinstance(v, bool) for v in vs) and (len(vs) < 3 or vs[2] != 0):
@@ -177,7 +193,20 @@ class Folder:
                     if isinstance(v, int):
                         return v
             return UNKNOWN
-        if isinstance(e, ast.ListComp) and len(e.generators) == 1 and isinstance(e.generators[0].target, ast.Name) and not e.generators[0].is_async:
+        if isinstance(e, ast.JoinedStr):
+            parts = []
+            for v in e.values:
+                if isinstance(v, ast.Constant) and isinstance(v.value, str):
+                    parts.append(v.value)
+                elif isinstance(v, ast.FormattedValue) and v.format_spec is None and v.conversion in (-1, 115):
+                    x = self._fold(v.value, mod, cls, env)
+                    if x is UNKNOWN or isinstance(x, (ClassRef, dict, list, tuple)):
+                        return UNKNOWN
+                    parts.append(str(x))
+                else:
+                    return UNKNOWN
+            return ''.join(parts)
+        if isinstance(e, (ast.ListComp, ast.GeneratorExp)) and len(e.generators) == 1 and isinstance(e.generators[0].target, ast.Name) and not e.generators[0].is_async:
             g = e.generators[0]
             it = self._fold(g.iter, mod, cls, env)
             if not isinstance(it, (list, tuple, bytes, range)) or len(it) > 5000:
